@@ -575,6 +575,11 @@ func c40RaceFamily(raw string) string {
 	}
 	a, b := pkg(parts[0]), pkg(parts[1])
 	state := func(p string) bool { return p == "dpos/state" || p == "cr/state" }
+	// One stack could not be restored by the detector (its per-goroutine history overflowed; the children run
+	// with history_size=7 to keep this rare): the report is still a definite race, but only one side is known.
+	if (a == "" && state(b)) || (b == "" && state(a)) {
+		return "race:family:consensus-state-access-with-lost-peer-stack"
+	}
 	valid := func(p string) bool { return p == "core/transaction" || p == "core/types/payload" }
 	switch {
 	case (a == "servers" && state(b)) || (b == "servers" && state(a)):
